@@ -200,6 +200,7 @@ Qed.
 Lemma limit_honest : forall id lim src, node_ok false src -> node_ok false (limit_node id lim src).
 Proof.
   intros id lim src H S p m s Hp Hm. unfold limit_node. apply HQ_on_eval. intros v.
+  destruct (int_of v =? 0); [apply HQ_ret|].
   pose proof (H _ (limit_cb id (int_of v) p) (lift_m m) (s, 0)
                 (limit_cb_honest _ _ _ _ Hp) (lift_m_ok _ _ _ _ Hm)) as Hx.
   destruct (src _ _ _ _) as [[st r] g]. hq. destruct Hx as [Hx _]. split; [|discriminate].
@@ -528,6 +529,8 @@ Theorem limit_failure_reached : forall id k evs e,
   rres (run_top false (PLimit id (Ok (VInt k)) (PScript evs (Some e)))) = Some (EFail e).
 Proof.
   intros id k evs e H. unfold run_top. cbn [run]. unfold limit_node. cbn [on_eval int_of].
+  pose proof (count_recs_nonneg evs) as Hn.
+  destruct (k =? 0) eqn:Ek; [apply Z.eqb_eq in Ek; lia|].
   destruct (limit_script_reached evs e id k 0 []) as [H1 H2]; [lia|].
   cbv zeta in H1, H2. unfold rres at 1. cbn [fst snd]. rewrite H1. reflexivity.
 Qed.
@@ -558,6 +561,7 @@ Theorem limit_failure_cut_off : forall id k evs fl,
   rres x = None /\ rgen x = false /\ count_recs (rst x) = k.
 Proof.
   intros id k evs fl H0 H. unfold run_top. cbn [run]. unfold limit_node. cbn [on_eval int_of].
+  destruct (k =? 0) eqn:Ek; [apply Z.eqb_eq in Ek; lia|].
   destruct (limit_script_cut evs fl id k 0 []) as [H1 [H2 H3]]; [lia|lia|].
   cbv zeta in *.
   set (x := run_script evs fl (list event * Z)%type (limit_cb id k rec_p) (lift_m rec_m) ([], 0)) in *.
